@@ -7,6 +7,8 @@
 //	    nm new <0|1>               fresh scope tree, root by newRootCtx -> ok
 //	    nm child <p> <hexname>     nestedFunctionContext under scope p  -> <id> <hex funcRef>
 //	    nm req <s> <hexname> <0|1> newVariable(name, pkgLevel) on s     -> <hex name>
+//	    nm gchild <p> <hexname>    the same for an instantiation of a generic function -> <id> <hex funcRef>
+//	    nm ptr <s> <v> <hexname> <0|1>  varPtrName of variable #v on s   -> <hex name>
 //	    nm cnt <s> <hexname>       allVars[name] of scope s             -> <n>
 //	    nm locals <s>              localVars of scope s                 -> comma list of hex
 //	    nm kw                      reservedKeywords, sorted             -> comma list
@@ -102,12 +104,16 @@ func answer(w []string) string {
 			return "bad-scope"
 		}
 		switch w[1] {
-		case "child":
+		case "child", "gchild":
 			name, ok := unhex(w[3])
 			if !ok {
 				return "bad-op"
 			}
-			id, ref, p := scopes.Child(s, string(name))
+			mk := scopes.Child
+			if w[1] == "gchild" {
+				mk = scopes.ChildGeneric
+			}
+			id, ref, p := mk(s, string(name))
 			if p != "" {
 				return "panic"
 			}
@@ -118,6 +124,20 @@ func answer(w []string) string {
 				return "bad-op"
 			}
 			r, p := scopes.NewVariable(s, string(name), w[4] == "1")
+			if p != "" {
+				return "panic"
+			}
+			return hexs([]byte(r))
+		case "ptr":
+			if len(w) != 6 {
+				return "bad-op"
+			}
+			vid, err := strconv.Atoi(w[3])
+			name, ok := unhex(w[4])
+			if err != nil || !ok {
+				return "bad-op"
+			}
+			r, p := scopes.VarPtrName(s, vid, string(name), w[5] == "1")
 			if p != "" {
 				return "panic"
 			}
